@@ -188,6 +188,7 @@ def run_case(case, trace_lines=True):
         except BaseException as e:  # noqa
             if isinstance(e, (KeyboardInterrupt, SystemExit, GeneratorExit)):
                 raise
+            e.__traceback__ = None  # no frame cycles: nothing of this case may be left to the cyclic GC
             tr.exc = e
         if case.get('dual'):
             try:
